@@ -23,6 +23,7 @@ import DtailModel.Model.Outfile
 import DtailModel.Model.Limiter
 import DtailModel.Model.Conn
 import DtailModel.Model.Multi
+import DtailModel.Model.Tail
 open Dtail
 
 structure Res where
@@ -839,6 +840,81 @@ def opC07Multi : List String → Res
     | _, _, _, _, _ => bad
   | _ => bad
 
+/-! C04 -/
+
+def hexOfString (s : String) : String := hexOf (str s)
+
+def opC04Perc : List String → Res
+  | [n] => match n.toNat? with
+    | some n =>
+      let vals := (List.range (n + 1)).flatMap fun m => (List.range (m + 1)).map fun t => s!"{percentOf m t},"
+      let r := (hexOfString (String.join vals)).replace "-" ""
+      { m := r, s := r, t := "exhaustive" }
+    | none => bad
+  | _ => bad
+
+structure Delivered where
+  count : Nat
+  perc : Nat
+  content : Bytes
+
+def parseDelivered (s : String) : Option (List Delivered) :=
+  if s = "none" then some [] else
+  (s.splitOn ",").mapM fun e => match e.splitOn ":" with
+    | [c, p, h] => do
+      let c ← c.toNat?
+      let p ← p.toNat?
+      let h ← unhex h
+      pure ⟨c, p, h⟩
+    | _ => none
+
+/-- replay the observed deliveries on the model: every line of the appended content is
+    processed in order; a matching line is delivered iff the implementation delivered it (the
+    queue state is the nondeterministic choice); the model must then reproduce count, content
+    and percentage of every delivered line -/
+def c04replay (lines : List Bytes) (bits : List Bool) (obs : List Delivered) : Option (List Delivered) × Stats :=
+  let rec go (k : Nat) (ls : List (Bytes × Bool)) (obs : List Delivered) (st : Stats) (acc : List Delivered) :
+      Option (List Delivered) × Stats :=
+    match ls with
+    | [] => (if obs.isEmpty then some acc.reverse else none, st)
+    | (l, b) :: rest =>
+      let deliveredHere := match obs with | d :: _ => d.count == k | [] => false
+      let (st', fate, cnt, perc) := processLine true st b (!deliveredHere)
+      match fate with
+      | .delivered => match obs with
+        | _ :: more => go (k + 1) rest more st' (⟨cnt, perc, l⟩ :: acc)
+        | [] => (none, st')
+      | _ => if deliveredHere then (none, st') else go (k + 1) rest obs st' acc
+  go 1 (lines.zip bits) obs statsInit []
+
+def renderDelivered (l : List Delivered) : String :=
+  if l.isEmpty then "none" else joinWith "," (l.map fun d => s!"{d.count}:{d.perc}:{hexOf d.content}")
+
+def opC04Tail : List String → Res
+  | [m, _cap, _re, _pre, steps, obs, bits] => match m.toNat?, parseDelivered obs with
+    | some m, some obs =>
+      let chunks := (steps.splitOn ",").filterMap fun st => if st.startsWith "W" then unhex (st.drop 1).toString else none
+      let s := tailRead m chunks
+      let lines := s.out
+      let bitl := bitsOf bits
+      if bitl.length ≠ lines.length then { m := s!"BITS-MISMATCH {bitl.length} {lines.length}" } else
+      let stalled := (steps.splitOn ",").any (· == "S")
+      let (acc, _) := c04replay lines bitl obs
+      let all : List Delivered := ((lines.zip bitl).zipIdx 1).filterMap fun ((l, b), k) => if b then some ⟨k, 100, l⟩ else none
+      let dropped := (all.filter fun d => !(obs.any (·.count == d.count))).length
+      -- a delivered line right after a drop must report less than 100 (within the ring); the recorded
+      -- finding: the drop is forgotten once `ringSize` further lines went by
+      let recycled := obs.any fun d => d.perc == 100 ∧ all.any (fun x => x.count < d.count ∧ !(obs.any (·.count == x.count)))
+      { m := match acc with | some l => renderDelivered l | none => "NOT-ACCEPTED-BY-MODEL",
+        s := if !stalled then renderDelivered all
+             else if recycled then "PERC-100-AFTER-DROP" else "-",
+        g := if recycled then "perc-recycled" else "-",
+        t := joinWith "," ((if dropped > 0 then ["drops"] else []) ++ (if chunks.length > 1 then ["chunked"] else [])
+          ++ (if !s.msg.isEmpty then ["partial-held"] else []) ++ (if bitl.contains false then ["filter"] else [])
+          ++ (if lines.any (fun l => l.length = m + 1) then ["split"] else [])) }
+    | _, _ => bad
+  | _ => bad
+
 def dispatch (line : String) : Res :=
   match (line.splitOn " ").filter (· ≠ "") with
   | "c01.reader" :: a => opC01Reader a
@@ -846,6 +922,8 @@ def dispatch (line : String) : Res :=
   | "c01.e2e" :: a => opC01E2E a
   | "c03.grep" :: a => opC03Grep a
   | "c03.e2e" :: a => opC03E2E a
+  | "c04.perc" :: a => opC04Perc a
+  | "c04.tail" :: a => opC04Tail a
   | "c05.agg" :: a => opC05Agg a
   | "c07.multi" :: a => opC07Multi a
   | "c08.perm" :: a => opC08Perm a
